@@ -944,6 +944,46 @@ fn big_cases(run: &mut Runner, variants: &[Variant]) {
         });
         k += 1;
     }
+    // the last upper block holds no ones (one-selectors) / no zeros (zero-selectors):
+    // the highest ranks sit in the last inventory entry of an *earlier* upper block
+    let uniform_tail: [(&str, bool); 8] = [
+        ("SelectSmall<3,13>", false),
+        ("SelectSmall<2,9>", false),
+        ("SelectSmall<1,10>", false),
+        ("Select9", false),
+        ("SelectAdapt::new", false),
+        ("SelectZeroSmall<3,13>", true),
+        ("SelectZeroSmall<1,9>", true),
+        ("SelectZeroAdapt::new", true),
+    ];
+    for (j, (name, tail)) in uniform_tail.into_iter().enumerate() {
+        let v = pick(name);
+        if !thorough && j % 3 != 0 {
+            k += 1;
+            continue;
+        }
+        let stratum = if tail { "big/dense,all-ones-from-2^32-on/tail=fresh" } else { "big/dense,all-zeros-from-2^32-on/tail=fresh" };
+        run.big_case(k, &v.name, stratum, if tail { "select_zero" } else { "select" }, |c| {
+            let len = (1usize << 32) + (1 << 20) + [0usize, 64 * 3, 29][c.rng().random_range(0..3)];
+            let (bv, m) = big_dense_tail(c.rng(), len, false, Some(tail));
+            let top = |c: &mut Case, count: usize| -> Vec<usize> {
+                let mut r = select_ranks(c.rng(), count, 20000);
+                // the highest ranks: the last inventory entries
+                for d in 0..8000usize {
+                    r.push(count.saturating_sub(8000) + d);
+                }
+                r
+            };
+            let r1 = top(c, m.ones());
+            let r0 = top(c, m.zeros());
+            let input = || format!("b = [{}]", m.show());
+            let q = Q { m: &m, input: &input, r1: &r1, r0: &r0 };
+            run_variant(c, &v, bv, &q);
+            c.nontrivial();
+            c.describe(|| input());
+        });
+        k += 1;
+    }
 }
 
 fn main() {
